@@ -73,6 +73,7 @@ def greens_kernel(shape, dx, dim):
     """K[(i, j)] = G(|i-j| dx) dx^d, free-space Green's function of -Laplacian, documented self term"""
     cells = list(np.ndindex(*shape))
     K = {}
+    dx = float(dx)
     for ci in cells:
         for cj in cells:
             r2 = sum((a - b) ** 2 for a, b in zip(ci, cj))
